@@ -5,8 +5,6 @@ package checks
 import (
 	"fmt"
 	"strings"
-
-	"verifmc/fw"
 )
 
 // aLine is one logical header line (with its continuation lines), Text ends
@@ -349,5 +347,3 @@ func aLayoutClass(k aCase) string {
 	}
 	return ""
 }
-
-var _ = fw.Q
